@@ -144,9 +144,10 @@ def run(ctx):
                 MODE[r['mode']], clist(nlist(x) for x in r['parts']), clist(c_viol(I, v) for v in r['obs']))
             for r in p['runs'])))
         body.append('Definition collects%d : list collect_case := %s.' % (wi, clist(
-            '{| cc_part := %s; cc_use := %s; cc_keys := %s |}' % (
+            '{| cc_part := %s; cc_use := %s; cc_keys := %s; cc_obs := %s |}' % (
                 nlist(c['part']), cbool(c['use_collect']),
-                clist('(%s, %s)' % (I.s(k), nlist(c['keys'][k])) for k in sorted(c['keys'])))
+                clist('(%s, %s)' % (I.s(k), nlist(c['keys'][k])) for k in sorted(c['keys'])),
+                clist(c_viol(I, v) for v in c['obs']))
             for c in p['collects'])))
         body.append('Definition caches%d : list cache_case := %s.' % (wi, clist(
             '{| kc_ops := %s; kc_state := %s; kc_dump := %s; kc_report := %s; kc_fresh := %s |}' % (
@@ -155,7 +156,8 @@ def run(ctx):
                 clist(c_viol(I, v) for v in c['report']), clist(c_viol(I, v) for v in c['fresh']))
             for c in p['caches'])))
         for tag, fn, lst in (('Rrun', 'run_agrees', 'runs'), ('Rcons', 'run_model_consistent', 'runs'),
-                             ('Rcol', 'collect_agrees', 'collects'), ('Rdump', 'cache_dump_agrees', 'caches'),
+                             ('Rcol', 'collect_agrees', 'collects'), ('Rcolrep', 'collect_report_agrees', 'collects'),
+                             ('Rdump', 'cache_dump_agrees', 'caches'),
                              ('Rcrep', 'cache_report_agrees', 'caches'), ('Rfresh', 'cache_fresh_agrees', 'caches')):
             nm = '%s%d' % (tag, wi)
             body.append('Definition %s := Eval vm_compute in failing (%s W%d) 0 %s%d.' % (nm, fn, wi, lst, wi))
@@ -235,10 +237,11 @@ def run(ctx):
         names = {'Rrun': 'run_agrees (Lint one-shot / WithAggregates vs Model.AggPipeline)',
                  'Rcons': 'run_model_consistent (the model itself: two_phase = one_shot on the observed tables)',
                  'Rcol': 'collect_agrees (exported Report.Aggregates vs collect)',
+                 'Rcolrep': 'collect_report_agrees (aggregate violations reported by a collect run itself)',
                  'Rdump': 'cache_dump_agrees (cache.GetFileAggregates vs Model.AggCache)',
                  'Rcrep': 'cache_report_agrees (report from cached aggregates)',
                  'Rfresh': 'cache_fresh_agrees (fresh one-shot in the overlay)'}
-        for tag in ('Rcol', 'Rrun', 'Rcons', 'Rdump', 'Rcrep', 'Rfresh'):
+        for tag in ('Rcol', 'Rrun', 'Rcolrep', 'Rcons', 'Rdump', 'Rcrep', 'Rfresh'):
             if bad[tag]:
                 w, c = min(bad[tag], key=lambda wc: len(json.dumps({k: v for k, v in wc[1].items() if k != '_dump'})))
                 vlib.violation(ctx, {'kind': 'correspondence', 'relation': 'Check.C09Check.' + names[tag],
